@@ -11,6 +11,7 @@ runtime would).
 -/
 import DtailModel.Lemmas.NoPanic
 import DtailModel.Lemmas.GenDecode
+import DtailModel.Lemmas.GenGrep
 import DtailModel.Lemmas.GenQuery
 import DtailModel.Model.Base64
 namespace Dtail.C10
@@ -103,6 +104,23 @@ theorem C10_generated_query_parser_never_panics (ext : Ext) (q : Bytes) (hf : (G
 theorem C10_generated_command_decoder_never_panics (ext : Go.Ext) (h : Gen.Decode.baseHandler) (cmd : Bytes) :
     ∃ r, Gen.Decode.baseHandler.handleCommand ext h cmd = Outcome.ok r :=
   GenDecode.handleCommand_ok ext h cmd
+
+/-- **No client bytes crash the server's `Write`.**  `baseHandler.Write` of internal/server/handlers — the entry point of
+    everything a client sends — translated on this run: for every handler state (whatever is left in the write buffer) and
+    every chunk of bytes, the function returns: it has taken all bytes, cut the stream at every ';' and passed each command
+    through the translated `handleCommand`, and no guard failed anywhere below it. -/
+theorem C10_generated_server_write_never_panics (ext : Go.Ext) (h : Gen.Decode.baseHandler) (p : Bytes) :
+    ∃ h', Gen.Decode.baseHandler.Write ext h p = Outcome.ok (h', (p.length : Int), none) :=
+  GenDecode.Write_ok ext h p
+
+/-- **The recorded finding on the translated code.**  The grep-context filter of internal/io/fs/readfilelcontext.go as
+    translated on this run (`make(chan *bytes.Buffer, ls.before)` guarded by the runtime's size limit): a `before` context
+    beyond that limit makes the filter panic before it reads a single line — `C10-huge-before` is a property of the code as it
+    stands in the working tree, not only of the hand-written `readerStart`. -/
+theorem C10_generated_huge_before_panics (ext : Go.Ext) (ltx : Go.GoLContext) (hB : ltx.BeforeContext > makechanLimit)
+    (f : Gen.Grep.readFile) (raws : List Bytes) (re : Go.GoRegex) :
+    ∃ m, Gen.Grep.readFile.filterWithLContext ext f () ltx raws () re = Outcome.panic m :=
+  ⟨_, GenGrep.filter_huge_before_panics ext ltx hB f raws re⟩
 
 /-- the parts: the option decoder on any option list, the protocol check on any argument list, the envelope decoder
     whenever the count it is handed is the number of arguments (which is what the protocol check hands it) -/
